@@ -41,13 +41,18 @@ class Literal(Tag):
     def parse(self, stream: TokenStream) -> ContentNode:
         """Parse tokens from _stream_ into an AST node."""
         token = stream.expect(TOKEN_CONTENT)
-        # Only text from a raw block can contain something that looks like markup.
+        # Only text from a raw block can contain something that looks like markup,
+        # or end with the beginning of something that the markup following it
+        # would complete.
+        text = token.value
         raw = any(
-            delim and delim in token.value
+            delim in text
+            or any(text.endswith(delim[:i]) for i in range(1, len(delim)))
             for delim in (
                 self.env.tag_start_string,
                 self.env.statement_start_string,
                 self.env.comment_start_string,
             )
+            if delim
         )
         return self.node_class(token, token.value, raw=raw)
